@@ -11,6 +11,59 @@ CASE_TIMEOUT = {"quick": 30, "thorough": 120}
 MODES = ["Zero", "Away", "Up", "Down", "HalfEven", "HalfAway"]
 BASES = [2, 2, 3, 8, 10, 10, 16, 36]
 TARGETS = [2, 3, 10, 16]
+# base pairs of the base-change operations (source -> targets), the same table as harness/src/bin/c08.rs
+CONV_PAIRS = {
+    2: [2, 3, 4, 5, 6, 8, 10, 16, 32],
+    3: [2, 3, 9, 10, 16, 27],
+    4: [2, 3, 4, 8, 10, 16, 32],
+    5: [2, 3, 5, 10, 16, 25],
+    6: [2, 3, 6, 10, 36],
+    7: [2, 3, 10, 16],
+    8: [2, 3, 4, 8, 10, 16, 32],
+    9: [2, 3, 9, 10, 27],
+    10: [2, 3, 5, 10, 16, 100],
+    16: [2, 3, 4, 8, 10, 16, 32],
+    25: [2, 5, 10, 25],
+    27: [2, 3, 9, 10, 27],
+    32: [2, 4, 8, 10, 16, 32],
+    36: [2, 3, 6, 10, 16, 36],
+    100: [2, 3, 10, 100],
+}
+
+
+def exact_log(n, b):
+    """k >= 1 with n = b^k, else 0"""
+    k, v = 0, 1
+    while v < n:
+        v *= b
+        k += 1
+    return k if v == n and k >= 1 else 0
+
+
+def root_of(b):
+    """smallest r with b = r^k"""
+    for r in range(2, b + 1):
+        if exact_log(b, r):
+            return r
+    return b
+
+
+def pair_class(b, nb):
+    if b == nb:
+        return "same"
+    if exact_log(nb, b) > 1:
+        return "up"
+    if exact_log(b, nb) > 1:
+        return "down"
+    if root_of(b) == root_of(nb):
+        return "root"
+    return "other"
+
+
+PAIRS_BY_CLASS = {}
+for _b, _l in sorted(CONV_PAIRS.items()):
+    for _nb in _l:
+        PAIRS_BY_CLASS.setdefault(pair_class(_b, _nb), []).append((_b, _nb))
 
 LEVEL_TEXT = ("Coq theorems for all inputs: (1) the as-is model of the float parser (Repr::from_str_native transcribed on byte lists: sign, rfind of "
               "the scale marker, isize scale, point, hexadecimal form, digit counting, final normalisation; UBig::from_str_radix at its C07 "
@@ -272,11 +325,24 @@ def gen_misc(rng, tier, b):
 
 
 def gen_conv(rng, tier, b):
+    # the class of the base pair first, then a pair of the class: every route of convert_base is met from
+    # every family of source bases (the power routes not only from / to base 2)
+    cls = rng.choice(["same", "up", "up", "up", "up", "down", "down", "down", "root", "root"] + ["other"] * 10)
+    k = rng.below(10)
+    if k >= 8:
+        op = rng.choice(["to_decimal", "to_binary"])
+        b = rng.choice(sorted(CONV_PAIRS))
+        nb = 10 if op == "to_decimal" else 2
+    else:
+        b, nb = rng.choice(PAIRS_BY_CLASS[cls])
     s, e, p0 = gen_float(rng, tier, b)
     if p0 > 64 and abs(e) > 1000:
         e = e // 30
-    nb = rng.choice(TARGETS)
-    k = rng.below(10)
+    n = max(exact_log(nb, b), exact_log(b, nb))
+    if n > 1 and rng.chance(1, 2):
+        # power-related bases: every residue of the exponent modulo n, both signs of the quotient
+        q = rng.choice([0, 0, 1, -1, 2, -2, 3, -3, 7, -7, 13, -13, 40, -40, 100, -100, 1000, -1000])
+        e = n * q + rng.below(n)
     mode = rng.choice(MODES)
     if k < 4:
         return "with_base %x %s %x %s %s %x" % (b, mode, nb, hx(s), hx(e), p0)
@@ -284,7 +350,7 @@ def gen_conv(rng, tier, b):
         d = ndigits(s, b)
         p = rng.choice([0, 1, 2, 3, 5, max(1, d - 1), d, d + 1, 2 * d, 10, 24, 53, 64, p0])
         return "with_base_prec %x %s %x %s %s %x %x" % (b, mode, nb, hx(s), hx(e), p0, p)
-    return "%s %x %s %s %s %x" % (rng.choice(["to_decimal", "to_binary"]), b, mode, hx(s), hx(e), p0)
+    return "%s %x %s %s %s %x" % (op, b, mode, hx(s), hx(e), p0)
 
 
 def gen_ieee(rng, tier):
@@ -307,10 +373,15 @@ def valid(text):
         if op in ("disp", "disp_repr", "lexp", "lexp_repr", "uexp", "uexp_repr", "dbg", "dbg_alt", "dbg_repr", "dbg_repr_alt", "rt", "rt_exp",
                   "with_precision", "to_decimal", "to_binary"):
             b, s, p0 = int(t[1], 16), core.unhx(t[3]), int(t[5], 16)
+            if op in ("to_decimal", "to_binary"):
+                if b not in CONV_PAIRS:
+                    return False
+            elif b not in (2, 3, 5, 7, 8, 10, 16, 36):
+                return False
             return p0 == 0 or ndigits(s, b) <= p0
         if op in ("with_base", "with_base_prec"):
             b, s, p0 = int(t[1], 16), core.unhx(t[4]), int(t[6], 16)
-            return (p0 == 0 or ndigits(s, b) <= p0) and t[3] in ("2", "3", "a", "10")
+            return (p0 == 0 or ndigits(s, b) <= p0) and int(t[3], 16) in CONV_PAIRS.get(b, [])
     except Exception:
         return False
     return True
